@@ -6,6 +6,7 @@ from ..engine import (CALLS, CTORS, HELD, MAYBE, atomic_ops, atomic_field_of, ca
 from ..flow import paths, path_positions, TooManyPaths
 from ..guards import check_guarded_fields, field_refs, locks_of
 from ..typestate import NonNull
+from ..facts import short
 from .. import common
 
 EXPLANATION = (
@@ -33,10 +34,56 @@ def fns(ctx, name):
     return list(ctx.fb.functions(rec=CLS, name=name))
 
 
+def striped_queue(ctx, rid="C06.order"):
+    """representation anchor: the pending work is kept in SEVERAL queues (an array / vector of lists).  The rules that
+    follow one queue - enqueue, flag, swap, forward traversal - do not describe that; what must hold for any such
+    representation is that entries of different queues have an order at all: each carries a sequence number drawn from
+    one shared counter when it is submitted.  Returns None (single queue) / True (striped, tickets present: undecided) /
+    False (striped without a common sequence: reported)."""
+    key = "_c06_striped"
+    if key in ctx.__dict__:
+        return ctx.__dict__[key]
+    res = None
+    for r_ in ctx.fb.records(tmpl=CLS):
+        fl = r_.field("m_pendingList")
+        if fl is None:
+            ctx.broken("deferred_guarded::m_pendingList not found (anchor vanished)")
+        t = fl["type"].replace("mutable ", "")
+        if re.match(r"^(std::array<|std::vector<gmlc|std::deque<gmlc)", t) or t.rstrip().endswith("]"):
+            counters = [x for x in r_.fields if re.match(r"^(mutable )?std::atomic<(unsigned |std::u?int|long|int|std::size_t|size_t)", x["type"])]
+            drawn = False
+            for f in ctx.fb.functions(rec=CLS):
+                for op in atomic_ops(f):
+                    fld = atomic_field_of(f, op)
+                    if fld and fld[0] == CLS and fld[1] in [c["name"] for c in counters] and op["op"] == "rmw":
+                        drawn = True
+            res = bool(counters) and drawn
+            ctx.ob(rid, res, "%s:%d" % (short(r_.file), fl.get("line", r_.line)), "pending work kept in several queues carries a sequence "
+                   "number from one shared counter", "" if res else "m_pendingList is %s and no shared counter orders entries of different "
+                   "queues: two modifications submitted one after the other by different threads are applied in whatever order the "
+                   "queues happen to be drained" % t[:60], inst=r_.qname)
+            break
+    ctx.__dict__[key] = res
+    return res
+
+
 def run(ctx):
     ctx.rule("C06.guard", "A3: m_obj only under m_mutex (S for reads, X for every non-const use); the private drain "
              "helper is only called with m_mutex held exclusively", floor=20)
     ctx.step(check_guarded_fields, ctx, "C06.guard", CLS)
+    ctx.rule("C06.order", "modifications are applied in submission order", floor=0)
+    st_ = ctx.step(striped_queue, ctx)
+    if st_ is not None:
+        if st_:
+            ctx.unknown("C06: deferred_guarded keeps its pending work in several queues ordered by a ticket; the rules that follow "
+                        "the single queue of the reference tree (submit / drain / order) do not describe this representation")
+        ctx.step(shared, ctx)
+        ctx.step(capture, ctx)
+        ctx.step(owned_functor, ctx)
+        ctx.step(exception_identity, ctx, "C06.exc")
+        ctx.step(result_identity, ctx)
+        ctx.step(common.raii_only, ctx, "C06.raii", ["deferred_guarded.hpp"], floor=20)
+        return
     ctx.step(submit, ctx)
     ctx.step(drain, ctx)
     ctx.step(shared, ctx)
